@@ -25,8 +25,8 @@ class C08(common.SpecCheck):
     def unit_args(self, spec, meta, inputs):
         a = super().unit_args(spec, meta, inputs)
         a["recompile"] = 2
-        if meta.get("class") == "A":
-            a["counterfactuals"] = [["K1"], ["K2"], ["K1", "K2"]]
+        if common.is_affine(meta):
+            a["counterfactuals"] = common.AFFINE_CF
         return a
 
     def nontrivial(self, spec, meta):
@@ -76,13 +76,8 @@ class C08(common.SpecCheck):
         return vs
 
     def attribute(self, spec, meta, inputs, results, v):
-        if v.vclass.startswith("output_") and meta.get("class") == "A":
-            run = results[v.hseeds[0]]["runs"][v.detail["input_set"]]
-            cf = run.get("cf") or {}
-            for name in ("K1", "K2", "K1+K2"):
-                c = cf.get(name)
-                if c and c["ok"]:
-                    return "C04-" + name
+        if common.is_affine(meta):
+            return common.attribute_affine(results, v)
         return None
 
     def observe(self, spec, meta, results, stats):
